@@ -1,5 +1,6 @@
 import Driver.Util
 import CirqVerif.Model.C12
+import CirqVerif.Model.C12Terminal
 namespace Driver.C12
 open Lean Driver CirqVerif.C12
 
@@ -36,6 +37,10 @@ def handle (op : String) (j : Json) : R Json := do
   | "unroll" =>
     let moments ← listF (asList pNode) j "moments"
     return jList jFlat (unrollCircuit 8 moments)
+  | "terminal" =>
+    let moments ← listF (asList pNode) j "moments"
+    let r := measurementsTerminal 8 moments
+    return Json.mkObj [("all", jBool r.1), ("any", jBool r.2)]
   | "mkeys" =>
     let n ← pNode (← field j "node")
     match n with
